@@ -102,6 +102,16 @@ theorem nested_combination_chains (o : Op3) (l r : Combo.BN.T) (hw : Combo.BN.wf
       = .res ⟨Combo.treeOfB (Combo.BN.toBT (.bin o true l r)), Combo.renderB (Combo.BN.toBT (.bin o true l r)), Combo.cNoError⟩ :=
   Combo.BN.parseB_chains o l r hw nested fuel hf
 
+/-- the same behind the component symbol, which is the text `parseNestedStatementCombination`
+    hands over for `Cac{Cac{…} [AND] Cac{…} [AND] Cac{…}}` -/
+theorem nested_combination_chains_with_symbol (sym : Str) (o : Op3) (l r : Combo.BN.T)
+    (hw : Combo.BN.wf (.bin o true l r) none) (hs : Combo.SWord sym) (hb : Combo.BPlain sym) (nested : Bool) (fuel : Nat)
+    (hf : Combo.depthB (Combo.BN.toBT (.bin o true l r)) ≤ fuel) :
+    Combo.parse true fuel (sym ++ Combo.BN.rT (.bin o true l r)) nested
+      = .res ⟨.comb o.str [sym] [] (Combo.treeOfB (Combo.BN.toBT l)) (Combo.treeOfB (Combo.BN.toBT r)),
+              sym ++ Combo.renderB (Combo.BN.toBT (.bin o true l r)), Combo.cNoError⟩ :=
+  Combo.BN.parseB_with_symbol_chains sym o l r hw hs hb nested fuel hf
+
 /-- every level of the scan: one complete boundary with the written operator for a combination,
     one incomplete boundary for a nested statement, lower levels untouched -/
 theorem brace_scan_records_the_written_tree (t : Combo.BT) (hb : Combo.BOk t) (cs : Str) (i : Nat) (st : Combo.St)
